@@ -7,6 +7,14 @@ HERE = os.path.dirname(os.path.dirname(os.path.abspath(__file__)))
 
 # id: (category, engine, technique, text, note, design_ref)
 CHECKS = {
+    "C04": (
+        "model_checking",
+        "tlc",
+        "TLC explicit-state exploration of an independent TLA+ transcription of PS3.8 9.2; every edge and non-edge of the dumped graph replayed on the real StateMachine.do_action",
+        "TLC enumerates the complete transition relation of models/PS38.tla (all 13 states x 19 events x roles x protocol-version) and checks the transcription's own invariants; all 988 (state,event,role,pv) cases - 492 edges and 496 non-edges - are replayed on the real state machine with a recording socket/timer and the next state and full effect set compared.  The space is finite and completely covered.",
+        "Trusts TLC, the transcription of PS3.8 in models/PS38.tla (DESIGN.md A.3) and the recording doubles under the real AssociationSocket/Timer.",
+        "3/C04",
+    ),
     "C28": (
         "exploration",
         "enum",
